@@ -610,7 +610,14 @@ pub fn enc_cmd(cmd: &Command, reply: &RespValue) -> Option<String> {
             }
             format!("LMOVE {} {} {} {}", hk(source), hk(dest), wherefrom, whereto)
         }
-        // the commands of `Model.RedisX`
+        _ => return None,
+    })
+}
+
+/// op text of the commands of `Model.RedisX` (understood by the C01 / C17 driver only: the other
+/// users of `enc_cmd` keep treating these variants as not modelled)
+pub fn enc_xcmd(cmd: &Command) -> Option<String> {
+    Some(match cmd {
         Command::SetBit(k, off, bit) => format!("X SETBIT {} {} {}", hk(k), off, bit),
         Command::GetBit(k, off) => format!("X GETBIT {} {}", hk(k), off),
         Command::BatchSet(kvs) => {
@@ -1385,9 +1392,9 @@ pub fn do_step(out: &mut Out, s: &mut Sess, cmd: &Command, prop: &str, seq: &[St
     }
     let ro = cmd.is_read_only();
     let (reply, is_err, op) = match (&r, &parts) {
-        (None, None) => ("crash".to_string(), false, enc_cmd(cmd, &RespValue::BulkString(None))),
+        (None, None) => ("crash".to_string(), false, enc_cmd(cmd, &RespValue::BulkString(None)).or_else(|| enc_xcmd(cmd))),
         (None, Some(p)) => ("crash".to_string(), false, enc_script(p)),
-        (Some(rv), None) => (reply_text(rv, reply_order(cmd)), is_error(rv), enc_cmd(cmd, rv)),
+        (Some(rv), None) => (reply_text(rv, reply_order(cmd)), is_error(rv), enc_cmd(cmd, rv).or_else(|| enc_xcmd(cmd))),
         (Some(rv), Some(p)) => (reply_text(rv, Order::AsIs), is_error(rv), enc_script(p)),
     };
     let name = cmd.name();
